@@ -2,7 +2,7 @@
    accumulate, round trip through the matching decoder. *)
 From PM.theories Require Import Base Struct PduCls PduSpec Pdu CorrPdu.
 From PM.Generated Require Import GenPdu.
-From PM.proofs Require Import Struct_proofs Pdu_bits_proofs Pdu_proofs Pdu_more_proofs Pdu_dec_proofs.
+From PM.proofs Require Import Struct_proofs Pdu_bits_proofs Pdu_proofs Pdu_more_proofs Pdu_dec_proofs Pdu_dec2_proofs.
 From Coq Require Import ZifyBool.
 Open Scope string_scope.
 Open Scope list_scope.
@@ -118,6 +118,21 @@ Proof. apply list_eqb_eq. intros x y H. now apply Z.eqb_eq. Qed.
 Lemma bl_eqb_eq l l' : list_eqb beqb l l' = true -> l = l'.
 Proof. apply list_eqb_eq. intros x y H. now apply Bool.eqb_prop. Qed.
 
+Lemma sub_read_eqb_eq x y : sub_read_eqb x y = true -> x = y.
+Proof.
+  destruct x, y. unfold sub_read_eqb. cbn. intros H. split_andb H. apply Z.eqb_eq in H, H0, H1. now subst.
+Qed.
+Lemma sub_write_eqb_eq x y : sub_write_eqb x y = true -> x = y.
+Proof.
+  destruct x, y. unfold sub_write_eqb. cbn. intros H. split_andb H. apply Z.eqb_eq in H, H1. apply zl_eqb_eq in H0. now subst.
+Qed.
+Lemma bytes_eqb_eq l l' : bytes_eqb l l' = true -> l = l'.
+Proof. apply list_eqb_eq. intros x y H. now apply N.eqb_eq. Qed.
+Lemma object_eqb_eq x y : object_eqb x y = true -> x = y.
+Proof.
+  destruct x, y. unfold object_eqb. cbn. intros H. split_andb H. apply Z.eqb_eq in H. apply bytes_eqb_eq in H0. now subst.
+Qed.
+
 Definition is_bits_rsp (m : msg) : bool :=
   match m with MReadCoilsRsp _ | MReadDiscreteRsp _ => true | _ => false end.
 
@@ -127,6 +142,9 @@ Ltac reflect_all :=
   | H : zl_eqb _ _ = true |- _ => apply zl_eqb_eq in H
   | H : list_eqb beqb _ _ = true |- _ => apply bl_eqb_eq in H
   | H : beqb _ _ = true |- _ => apply Bool.eqb_prop in H
+  | H : list_eqb sub_read_eqb _ _ = true |- _ => apply (list_eqb_eq _ sub_read_eqb_eq) in H
+  | H : list_eqb sub_write_eqb _ _ = true |- _ => apply (list_eqb_eq _ sub_write_eqb_eq) in H
+  | H : list_eqb object_eqb _ _ = true |- _ => apply (list_eqb_eq _ object_eqb_eq) in H
   end.
 
 Lemma matches_eq m d : conforming_decode m = true -> is_bits_rsp m = false -> msg_matches m d = true -> d = m.
